@@ -53,6 +53,7 @@ class ContractMixin:
         fr.locals["me"] = Val(ANY, self.me_const)
         if extra:
             fr.locals.update(extra)
+        fr.label = "own"          # a clause of the function under verification itself
         return fr
 
     def eval_clause(self, text, st, extra=None, frame=None):
@@ -248,7 +249,7 @@ class ContractMixin:
             return self.ev_list(e.args, st, with_vals)
         if name == "fresh_obj":
             # allocated during this call: born after everything that existed at old()
-            return self.ev(e.args[0], st, lambda v, s: k(mk_bool(birth(v.t) > s.old.bound), s))
+            return self.ev(e.args[0], st, lambda v, s: k(mk_bool(z3.And(v.t != NULL, birth(v.t) > s.old.bound)), s))
         if name == "mine":
             # created by this invocation of the function under verification (syntactic allocation sites on this path)
             def is_mine(v, s):
@@ -256,6 +257,9 @@ class ContractMixin:
                     return k(mk_bool(False), s)
                 return k(mk_bool(z3.Or(*[v.t == o for (o, _oc) in s.new_objs]) if s.new_objs else z3.BoolVal(False)), s)
             return self.ev(e.args[0], st, is_mine)
+        if name == "yields":
+            # number of items this async generator has handed out so far
+            return k(Val(INT, st.yields), st)
         if name == "allocated":
             # the object exists in the current state (it was created before now)
             return self.ev(e.args[0], st, lambda v, s: k(mk_bool(z3.And(v.t != NULL, birth(v.t) <= s.clock)), s))
@@ -293,11 +297,12 @@ class ContractMixin:
         # locals of the verified function as they were at the snapshot (parameters keep their entry values)
         fr = st.frame
         saved_locals = None
-        if fr.spec and snap.locals is not None:
+        if fr.spec and snap.locals is not None and getattr(fr, "label", None) == "own":
+            # clauses of the function under verification: its locals as they were at the snapshot (also parameters: a
+            # reassigned parameter had its own value then).  Frames of callee contracts keep their own bindings.
             saved_locals = dict(fr.locals)
             for n, v in snap.locals.items():
-                if n not in self.entry_params:
-                    fr.locals[n] = v
+                fr.locals[n] = v
 
         def done(v, s):
             if saved_locals is not None:
@@ -774,7 +779,7 @@ class ContractMixin:
                 mods = self.parse_modifies(c, st, fr)
                 # (the abstract truth values are refreshed by the heap writes below: completely for whole-field
                 #  effects, for the objects not older than the target for `Class.field@obj` effects)
-                if mods and not c.pure and self.may_allocate(c, info):
+                if not c.pure and self.may_allocate(c, info):
                     nb = fresh("clock", z3.IntSort())
                     s.assume(nb >= s.clock)
                     s.clock = nb
@@ -835,6 +840,9 @@ class ContractMixin:
                         if w is not None:
                             s.assume(z3.Not(w))
                     res = self.fresh_result(s, c)
+                    if isinstance(res, Val) and res.ty[0] == "ref":
+                        # whatever a callee hands back exists now
+                        s.assume(birth(res.t) <= s.clock)
                     sfr.locals["result"] = res
                     for ens in c.ensures + c.on_exit:
                         s.assume(self.eval_clause(ens, s, frame=sfr))
@@ -1045,6 +1053,14 @@ class ContractMixin:
         self.path_count += len(outs)
         for o, s in outs:
             self.check_exit(c, info, o, s)
+        # vacuity guard: a contract that promises something about normal completion (or about the items of an async
+        # generator) is not allowed to be "proved" because no symbolic path gets that far
+        if c.ensures and not c.vacuous_ok and not any(o.kind in ("N", "R") for o, _s in outs):
+            self.emit(states[0], "vacuity", "normal_exit_reachable",
+                      "some path of the function reaches its normal exit (the contract has postconditions)", z3.BoolVal(False))
+        if info.is_asyncgen and c.step_ensures and not c.vacuous_ok and not any(ob.kind == "step_post" for ob in self.obligations[n_obl_before:]):
+            self.emit(states[0], "vacuity", "yield_reachable",
+                      "some path of the async generator reaches a yield (the contract has step postconditions)", z3.BoolVal(False))
         return len(self.obligations) - n_obl_before
 
     def fresh_param(self, st, n, ty):
